@@ -76,6 +76,9 @@ func (fg *FnGen) step(fr *Frame, b *ssa.BasicBlock, ins ssa.Instruction, st *Sta
 		fr.vals[x] = ref
 		elem := x.Type().Underlying().(*types.Pointer).Elem()
 		fg.freshSubObjects(ref, elem, 0)
+		if !x.Heap && fr.top && !fg.noDefs {
+			fg.stackCells = append(fg.stackCells, stackCell{ref: ref, ty: elem})
+		}
 		fg.storeValue(st, ref, elem, ti.zeroOf(elem))
 		if stt, ok := elem.Underlying().(*types.Struct); ok && ti.structName(elem, stt) == "strings.Builder" {
 			fg.set(st, sbVar, sbSort, Store(fg.lookup(st, sbVar, sbSort), ref, StrLit("")))
